@@ -691,6 +691,22 @@ class TermEngine:
             out.append(fs)
         return out or [list(self.facts_at(b))]
 
+    def entry_guards(self, b):
+        """fact lists, one per way of reaching block b: b's straight-line chain of single predecessors is followed up
+        to the first block with several predecessors (`if p || q { return X }`: X's block hangs below such a join),
+        whose incoming edges each contribute their own facts"""
+        j = b
+        steps = 0
+        while len(self.cfg.pred.get(j, [])) == 1 and steps < 20:
+            p = self.cfg.pred[j][0]
+            if self.fn.blocks[p]["term"]["k"] == "switch":
+                break
+            j = p
+            steps += 1
+        if len(self.cfg.pred.get(j, [])) > 1:
+            return self.edge_guards(j)
+        return [list(self.facts_at(b))]
+
     def facts_at(self, b):
         """dominating branch facts at block b as [(cond_term, value, variants)]"""
         ef = getattr(self, "_ef", None)
